@@ -22,6 +22,8 @@ Ints == UNION {[1..k -> IntPool] : k \in 0..2} \cup {<<a, 2, 1, 5>> : a \in IntP
         \cup {<<a, 3, b>> : a \in {36, 64, 65, 100, 2000}, b \in {12, 16, 20, 36, 64, 65, 70, 100}}
         \* a size of one (or two) with every dimension count and index
         \cup {<<a, b, c>> : a \in {1, 2}, b \in {0, 1, MaxInt}, c \in IntPool}
+        \* the same below a record position (LIST.NEIGHBOR*BVALS / IVALS / FVALS take four integers)
+        \cup {<<0, a, 0, c>> : a \in {1, 2}, c \in IntPool} \cup {<<0, a, 3, b>> : a \in {36, 64, 100}, b \in {16, 64, 65, 70}}
 Base == [EmptyState EXCEPT !.float = <<1056964608, FOne, FOne>>, !.code = <<IList(<<IInt(1), IBool(TRUE)>>)>>,
                            !.ivec = <<<<1, 2>>>>, !.bvec = <<<<TRUE>>>>, !.name = <<"true", "a">>, !.index = <<[cur |-> 0, dst |-> 1]>>]
 Doubling == {<<IList(<<IIns("CODE.QUOTE"), IList(<<IInt(1)>>), IIns("EXEC.Y"), IList(<<IIns("CODE.DUP"), IIns("CODE.LIST")>>)>>)>>,
